@@ -9,9 +9,14 @@ TRUST = ("trusted base: pyvc VC generator + symbolic semantics (DESIGN 2.2), z3 
 CHECKS = {
     # id: (category, text, technique)
     "C01": ("other", "Function contracts on the real value-resolution / readiness / unpacking functions discharged by z3 for all inputs (get_value_source, _resolve_input, collect_inputs_for_node, _has_input, _is_stale, _needs_execution, wrap_outputs, update_value ...); run-level equality with dependency-order evaluation only relative to paper lemma L-C01, plus a bounded end-to-end oracle on generated DAG programs", "contract-based deductive verification (pyvc: AST->VC->z3) + bounded native oracle"),
+    "C02": ("other", "Superstep-loop contracts of both runners (same loop shape and step bound), GraphState.update_value data-structure contract; equality of whole runs across runners / completion orders / max_concurrency / node order only by the bounded differential harness (yield-count schedules, failing nodes)", "contract-based deductive verification + bounded differential harness"),
     "C03": ("other", "Activation / stale-decision clearing / decision validation / gate execution contracts discharged by z3 (_get_activated_nodes, _clear_stale_gate_decisions, validate_routing_decision, execute_ifelse/route ...); get_ready_nodes' blocking clause and the run-level trace property are bounded only", "contract-based deductive verification + bounded native oracle"),
     "C04": ("other", "Step-bound contract on both runners' superstep loops (at most max_iterations supersteps; InfiniteLoopError exactly when nodes are still ready afterwards; quiescent runs return), staleness / stale-decision-clearing / version contracts discharged by z3; iteration counts equal to the sequential while-loop only by the bounded loop-family oracle", "contract-based deductive verification (PATH + VC) + bounded native oracle"),
+    "C05": ("other", "GraphNode value-resolution branch of get_value_source proved; wrapper name translation / input-spec equality decided only by the bounded flat-vs-nested family (inner/outer bindings, rename histories, depth 1..2) - bounded, not proved", "bounded native oracle (nest family) + function contracts where available"),
+    "C06": ("other", "Rename maps decided by the bounded history enumeration (net-identity histories, swaps, name re-use, real renames, alpha-renaming, map_over/clone lists); no deductive obligation discharged yet for _rename.py", "bounded native oracle (rename histories)"),
+    "C07": ("other", "Class-wide static FRAME obligations on the real AST (no method of Graph / node classes writes to its receiver; _shallow_copy re-creates _bound and drops memoised inputs) + bounded derivation-sequence harness with twin oracle", "static frame analysis (all paths) + bounded native oracle"),
     "C08": ("proof", "PATH obligations (path-complete symbolic execution of the loop-free lifecycle templates): every validator precedes every effect on all paths of run/map, for both runners; input-spec exactness is bounded only", "contract-based deductive verification (PATH obligations over ghost traces)"),
+    "C09": ("proof", "PATH obligations on DiskCache.get/set (HMAC verified before pickle.loads on every path; payload-then-signature write order; misses otherwise), InMemoryCache.get, check_cache opt-in, restore_routing_decision frame; cache-key injectivity and run-level transparency by the bounded harness (twin nodes, corruption matrix, torn writes)", "contract-based deductive verification (PATH) + bounded native oracle"),
     "C11": ("proof", "PATH obligations on run templates: surfaced exception object is the cause of the internal wrapper; continue mode never raises after RunStart; FAILED values go through filter_outputs with default on_missing", "contract-based deductive verification (PATH obligations)"),
     "C12": ("proof", "PATH obligations: RunStart..exactly one RunEnd with the observed status on every terminated path of run/map templates, shutdown last and only at top level; dispatcher delivery contracts", "contract-based deductive verification (PATH obligations)"),
     "C13": ("proof", "EventDispatcher.emit/emit_async/shutdown/shutdown_async: no Exception escapes in non-strict mode, every processor visited exactly once per event, loop never left early (all paths, coroutine-accurate await model)", "contract-based deductive verification (PATH + loop-body trace obligations)"),
